@@ -98,6 +98,11 @@ Proof.
     destruct (role_ok c); simpl in H; inversion H; subst; simpl; auto 10.
 Qed.
 
+(* the passphrase decrypts every configured key file and every file loads *)
+Definition all_good_pre (c : cfg) (p : bs) : bool :=
+  bs_eqb p (right_pass c) && main_ok c && role_ok c &&
+  match ed_file c with Some (pe, _, r) => bs_eqb p pe && file_ok r | None => true end.
+
 (* an unsealing attempt that returns an error leaves the state exactly as it was *)
 Lemma unseal_ca_error_unchanged c s p : snd (unseal_ca c s p) = false -> fst (unseal_ca c s p) = s.
 Proof.
@@ -111,6 +116,19 @@ Proof.
     destruct (role_ok c); simpl; [discriminate|reflexivity].
   - destruct (main_ok c); simpl; [|reflexivity].
     destruct (role_ok c); simpl; [discriminate|reflexivity].
+Qed.
+
+(* the auto-unseal path (tryAwsUnseal) hands the stored secret to unsealCA directly, without the
+   TLS / client-certificate gate of the handler: it unseals only with the passphrase of the key file *)
+Lemma auto_unseal_only_right_pass c s p :
+  signer s = None -> signer (fst (unseal_ca c s p)) <> None ->
+  snd (unseal_ca c s p) = true /\ all_good_pre c p = true /\ signer (fst (unseal_ca c s p)) = Some (main_key c).
+Proof.
+  intros Hs Hn. destruct (unseal_ca c s p) as [s' ok] eqn:E. simpl in *.
+  destruct (unseal_ca_sealed_or _ _ _ _ _ E Hs) as [[A _]|[A [B [C [D [F G]]]]]]; [subst; congruence|].
+  split; [exact B|]. split; [|exact A].
+  unfold all_good_pre. subst p. rewrite bs_eqb_refl, D, F. simpl.
+  destruct (ed_file c) as [[[pe e] r]|]; [|reflexivity]. destruct G as [G1 G2]. rewrite <- G1, bs_eqb_refl, G2. reflexivity.
 Qed.
 
 Lemma refused_unchanged c s r : snd (inject c s r) <> 200 -> fst (inject c s r) = s.
@@ -134,15 +152,13 @@ Qed.
 (* which injections are answered 200 on a sealed server: exactly those that come over TLS with a
    verified chain, carry the passphrase of the main file, and find every configured key file
    decryptable with it and loadable *)
-Definition all_good (c : cfg) (p : bs) : bool :=
-  bs_eqb p (right_pass c) && main_ok c && role_ok c &&
-  match ed_file c with Some (pe, _, r) => bs_eqb p pe && file_ok r | None => true end.
+Definition all_good (c : cfg) (p : bs) : bool := all_good_pre c p.
 
 Lemma accepted_iff c s r : signer s = None ->
   (snd (inject c s r) = 200 <->
    i_tls r = true /\ i_chain r = true /\ exists p, i_field r = Some p /\ all_good c p = true).
 Proof.
-  intros Hs. unfold inject, inject_with, all_good.
+  intros Hs. unfold inject, inject_with, all_good, all_good_pre.
   destruct (i_tls r); simpl; [|split; [discriminate|intros [X _]; discriminate]].
   destruct (i_chain r); simpl; [|split; [discriminate|intros [_ [X _]]; discriminate]].
   destruct (i_field r) as [p|]; [|split; [discriminate|intros [_ [_ [p [X _]]]]; discriminate]].
